@@ -54,6 +54,7 @@ type vfE4Env struct {
 	vnow     int64
 	topics   []string
 	hist     map[string]int
+	plainID  bool // IDENTIFY without the decoy members (the C15 bystander)
 }
 
 func vfE4Start(realHTTP bool, topics []string) *vfE4Env {
@@ -430,11 +431,35 @@ var vfE4HandlerPath = map[string]string{
 }
 
 func vfE4IdentifyBody(bc, ho, ve []byte, tcp, httpPort int) []byte {
-	b, _ := json.Marshal(map[string]interface{}{
+	return vfE4IdentifyBodyX(bc, ho, ve, tcp, httpPort, nil)
+}
+
+// vfE4IdentifyBodyX: the five documented members plus extra ones (a client controls the whole
+// document; members that are not IDENTIFY fields must have no effect).
+func vfE4IdentifyBodyX(bc, ho, ve []byte, tcp, httpPort int, extra map[string]interface{}) []byte {
+	m := map[string]interface{}{
 		"broadcast_address": string(bc), "hostname": string(ho), "version": string(ve),
 		"tcp_port": tcp, "http_port": httpPort,
-	})
+	}
+	for k, v := range extra {
+		m[k] = v
+	}
+	b, _ := json.Marshal(m)
 	return b
+}
+
+// otherAddr: the address another open connection talks from (what a spoofing peer would claim)
+func (e *vfE4Env) otherAddr(self int) string {
+	best := -1
+	for id := range e.conns {
+		if id != self && (best < 0 || id < best) {
+			best = id
+		}
+	}
+	if best < 0 {
+		return "203.0.113.9:1"
+	}
+	return e.conns[best].c.LocalAddr().String()
 }
 
 func (e *vfE4Env) count(k string) { e.hist[k]++ }
@@ -488,7 +513,14 @@ func (e *vfE4Env) execOnly(w []string) (string, bool) {
 		id, _ := strconv.Atoi(w[2])
 		tcp, _ := strconv.Atoi(w[6])
 		hp, _ := strconv.Atoi(w[7])
-		body := vfE4IdentifyBody(vfE4Unhex(w[3]), vfE4Unhex(w[4]), vfE4Unhex(w[5]), tcp, hp)
+		// every IDENTIFY of the history legs also carries members that are not IDENTIFY fields, naming
+		// another connection's address: they must be ignored (remote_address is overwritten, id is unexported)
+		other := e.otherAddr(id)
+		extra := map[string]interface{}{"remote_address": other, "id": other, "lastUpdate": 1}
+		if e.plainID {
+			extra = nil
+		}
+		body := vfE4IdentifyBodyX(vfE4Unhex(w[3]), vfE4Unhex(w[4]), vfE4Unhex(w[5]), tcp, hp, extra)
 		var buf bytes.Buffer
 		buf.WriteString("IDENTIFY\n")
 		binary.Write(&buf, binary.BigEndian, int32(len(body)))
@@ -523,6 +555,38 @@ func (e *vfE4Env) execOnly(w []string) (string, bool) {
 	case "stream":
 		id, _ := strconv.Atoi(w[2])
 		out = e.stream(id, vfE4Unhex(w[3]))
+	case "spoof":
+		// spoof <id> <victim> <keys> <bc> <ho> <ve> <tcp> <http> <rest>
+		id, _ := strconv.Atoi(w[2])
+		victim, _ := strconv.Atoi(w[3])
+		addr := "203.0.113.9:1"
+		if c, ok := e.conns[victim]; ok {
+			addr = c.c.LocalAddr().String()
+		}
+		extra := map[string]interface{}{}
+		if w[4] != "-" {
+			for _, k := range strings.Split(w[4], ",") {
+				switch k {
+				case "peerInfo", "peer_info":
+					extra[k] = map[string]interface{}{"id": addr, "remote_address": addr}
+				case "lastUpdate", "last_update":
+					extra[k] = 1
+				case "tombstoned":
+					extra[k] = true
+				default:
+					extra[k] = addr
+				}
+			}
+		}
+		tcp, _ := strconv.Atoi(w[8])
+		hp, _ := strconv.Atoi(w[9])
+		body := vfE4IdentifyBodyX(vfE4Unhex(w[5]), vfE4Unhex(w[6]), vfE4Unhex(w[7]), tcp, hp, extra)
+		var buf bytes.Buffer
+		buf.WriteString("  V1IDENTIFY\n")
+		binary.Write(&buf, binary.BigEndian, int32(len(body)))
+		buf.Write(body)
+		buf.Write(vfE4Unhex(w[10]))
+		out = e.stream(id, buf.Bytes())
 	default:
 		return "", false
 	}
